@@ -324,6 +324,11 @@ func childMain(path string) {
 		emit("DONE")
 		return
 	}
+	if len(h.Ops) > 0 && h.Ops[0] == "failedstart" {
+		failedStart(&h, emit)
+		emit("DONE")
+		return
+	}
 	if len(h.Ops) > 0 && strings.HasPrefix(h.Ops[0], "rebind") {
 		rebind(&h, emit)
 		emit("DONE")
